@@ -28,8 +28,16 @@ func main() {
 			driver.Opt("fields-no-pointers", "struct_fields_always_pointers: false\n"),
 		)
 	}
+	// second probe schema (nested lists, enums, object-valued struct fields, method-bound
+	// fields, map-backed model, interface implementing an interface)
+	shapeCfgs := []driver.ProbeConfig{driver.CfgDefault}
+	if c.Tier == "thorough" {
+		shapeCfgs = append(shapeCfgs, driver.CfgFollowSchema, driver.CfgFuncSyntax, driver.CfgWorker2,
+			driver.Opt("omit-slice-element-pointers", "omit_slice_element_pointers: true\n"),
+			driver.Opt("resolvers-no-pointers", "resolvers_always_return_pointers: false\n"))
+	}
 	t0 := time.Now()
-	builds := driver.BuildAll("exec", cfgs)
+	builds := driver.BuildBoth(cfgs, shapeCfgs)
 	c.Cov["build_s"] = time.Since(t0).Seconds()
 	for _, b := range builds {
 		if b.Err != nil {
@@ -45,12 +53,12 @@ func main() {
 	results := driver.RunMass("C01", c.Tier, builds, budget)
 	driver.Report(c, results)
 	c.Cov["rule"] = "every operation over the exec probe schema with at most N selection nodes from the grammar {field, alias, repeated field, inline fragment with/without type condition, named fragment spread, repeated spread, one @skip/@include} plus a hand-written corpus, accepted by gqlparser's validator, times every plan with at most d deviating resolver/directive/list-element outcomes {null, error, len0, len1, alt concrete type, typed nil}; non-trivial = invoked at least one resolver or has a deviating plan; cases are distinct by construction (operation text x plan key x configuration)"
-	c.Cov["bounds"] = map[string]any{"tier": c.Tier, "configs": len(cfgs)}
+	c.Cov["bounds"] = map[string]any{"tier": c.Tier, "configs": len(cfgs), "shapes_configs": len(shapeCfgs)}
 	c.Assume = []string{
 		"gqlparser's parser is trusted to turn text into AST; its validator is only a yes/no gate",
 		"errors compared as a multiset of (path, kind); messages are not compared",
 		"siblings of a failed field are still executed (gqlgen does not cancel; the spec allows either)",
-		"probe schema only; random schemas are not generated (sampling is another technique)",
+		"two hand-written probe schemas (exec, shapes) chosen to carry every shape class of the generated code; random schemas are not generated (sampling is another technique)",
 	}
 	probe.Cleanup()
 	c.Finish()
